@@ -641,6 +641,8 @@ def run(ctx):
         "capturing_cases_outside_subst_eval_hypothesis": dist.get("capturing (outside subst_eval's hypothesis)", 0),
         "capturing_example": dist_examples.get("capturing_example"),
         "oracle_failures_found_in_python": direct_failures,
+        "cases_flagged_by_coq": len(bad),
+        "failure_kinds": dict(Counter(f.kind + ("" if f.property_fails else ":no-failing-input") for f in ctx.failures)),
     }, "proof", assumptions=[
         "expressions are built by the ExpressionManager constructors (nf)",
         "types of keys/values are those computed by the implementation's TypeChecker (subject of C15)",
